@@ -157,7 +157,7 @@ class SymInt:
         return self.__index__()
 
     def __repr__(self):
-        return f"SymInt({self.e})"
+        return repr(self.__index__())     # code under test formats positions into messages: concretise like format()
 
     def __format__(self, spec):
         return format(self.__index__(), spec)
